@@ -7,7 +7,8 @@ from rules.search import r05_6
 from rules.prefilter import r05_3
 
 LEVEL = 'other'
-RULES = [('R07.5', r07_5), ('R19.1', r19_1), ('R19.2', r19_2), ('R19.3', r19_3), ('R10.3', r10_3), ('R01.1', r01_1), ('R07.3', r07_3), ('R05.6', r05_6), ('R05.3', r05_3), ('R07.1', r07_1)]
+from rules.prefilter import r05_1, r05_2
+RULES = [('R07.5', r07_5), ('R19.1', r19_1), ('R19.2', r19_2), ('R19.3', r19_3), ('R10.3', r10_3), ('R01.1', r01_1), ('R07.3', r07_3), ('R05.6', r05_6), ('R05.3', r05_3), ('R07.1', r07_1), ('R05.1', r05_1), ('R05.2', r05_2)]
 EXPLANATION = """R19.1 in both drivers the cursor is only increased inside the loop (+1, or a jump guarded by i > cursor), and every CFG cycle
 through the next_state call passes a strict increase: at most one transition per cursor value, bounded by input.end() (R10.3 loop
 guard); the stream scan performs one transition per buffered byte (R07.3). R19.2 DFA::next_state and everything it calls is loop-free
